@@ -173,7 +173,7 @@ class ObjectDomain(EffectDomain):
             base = st.get(fr.local(chain[0]))
         elif fr.instance is None and fr.selfname and chain[0] == fr.selfname:
             held = st.get(fr.self_key + "." + chain[1], None) if len(chain) >= 3 else None
-            if is_inst(held):
+            if is_inst(held) or (isinstance(held, tuple) and held[:1] == ("wobj",)):
                 # self.a.b...: an attribute of the analysed object holds an instance made during the run
                 cur = [val(held, st)]
                 for attr in chain[2:]:
@@ -217,6 +217,8 @@ class ObjectDomain(EffectDomain):
             got = self._inst_attr(interp, value, attr, st, fr)
             return got if got is not None else [val(TOP, st)]
         if isinstance(value, tuple) and value[:1] == ("wobj",):
+            if (value[1], attr) in self.lacks:
+                return [exc(("exc", "AttributeError"), st)]
             if attr in self.log_reads and not st.has(f"obj.{value[1]}.{attr}"):
                 # a data attribute of a wrapped object whose reads are observed
                 name = f"{value[1]}.{attr}"
@@ -693,7 +695,8 @@ class ObjectDomain(EffectDomain):
         if tag == "classref":
             return self.instantiate(interp, fn[1], pos, kw, st, fr)
         if tag == "ctorref":
-            obj = ("new", fn[1].split(".")[-1], tuple(pos), tuple(kw))
+            cpos, ckw = self._ctor_args(ast.parse(fn[1], mode="eval").body, fr, tuple(pos), tuple(kw))
+            obj = ("new", fn[1].split(".")[-1], cpos, ckw)
             if getattr(self, "unique_ctors", False):
                 n_ = st.get("ev.alloc", 0)
                 return [val(obj + (n_,), st.set("ev.alloc", n_ + 1))]
